@@ -1746,7 +1746,10 @@ impl Checker
     /// what was mutated since the previous time this system (state) looked.
     fn on_change_sample(&mut self, changed: [bool; 2], resample: bool)
     {
-        let Some(sys) = self.last_begun else { self.internal("change sample without a run".into()); return };
+        // the sample at the start of a body belongs to the run that has just begun; the re-sample at the end of an
+        // exclusive body belongs to the innermost open run (other runs may have nested inside that body)
+        let owner = if resample { self.run_stack.last().and_then(|r| self.runs.get(r)).map(|r| r.sys) } else { self.last_begun };
+        let Some(sys) = owner else { self.internal("change sample without a run".into()); return };
         let base = self.systems[sys as usize].baseline;
         for r in 0..2
         {
